@@ -5,6 +5,8 @@
 //   wrow <row> <n> <value>*n                           writeRow(row, values)
 //   wcells_n <row> <k> (<name s:hex> <value>)*k        writeCells(row, {Cell(name, v)...})
 //   wcells_i <row> <k> (<col> <value>)*k               writeCells(row, {Cell(col, v)...})
+//        both may carry a route suffix, e.g. wcells_i:presized -- how the std::vector<Cell> is put together:
+//        brace | assign | presized | reverse | rotate | swap | erase | insert | copy | move  (same request, see build_cells)
 //   wcell <row> <col> <value>                          writeCell(row, col, v)
 //   wcol_n <name s:hex> <T> <offset> <count> <n> <value>*n     writeColumn<T>(name, vals, offset, count)
 //   wcol_i <col> <T> <offset> <count> <n> <value>*n            writeColumn<T>(col, vals, offset, count)
@@ -22,6 +24,7 @@
 // compile for it).  Mutating lines answer "done".
 #include "common.hpp"
 #include <hdf5.h>
+#include <algorithm>
 
 using namespace nixv;
 
@@ -171,6 +174,70 @@ static std::string enc_cell(const nix::Cell &c) {
     return std::to_string(c.col) + " " + enc_str(c.name) + " " + enc_val(c);
 }
 
+// The same writeCells request -- the list of (column or name, value) in `want` -- handed over through different
+// C++ construction routes: what arrives at writeCells must not depend on how the caller put its vector together.
+static std::vector<nix::Cell> build_cells(const std::vector<nix::Cell> &want, const std::string &route) {
+    const size_t k = want.size();
+    if (route == "brace") return want;                                   // fresh elements, copy-constructed vector
+    if (route == "assign") {                                             // one re-used Cell variable, assigned each time
+        std::vector<nix::Cell> out;
+        nix::Cell c;
+        for (size_t i = 0; i < k; i++) { c = want[i]; out.push_back(c); }
+        return out;
+    }
+    if (route == "presized") {                                           // pre-sized vector filled by assignment
+        std::vector<nix::Cell> out(k);
+        for (size_t i = 0; i < k; i++) out[i] = nix::Cell(want[i]);
+        return out;
+    }
+    if (route == "reverse") {                                            // built backwards, then std::reverse
+        std::vector<nix::Cell> out(want.rbegin(), want.rend());
+        std::reverse(out.begin(), out.end());
+        return out;
+    }
+    if (route == "rotate") {                                             // built rotated by one, then rotated back
+        std::vector<nix::Cell> out;
+        for (size_t i = 0; i < k; i++) out.push_back(want[(i + 1) % (k ? k : 1)]);
+        if (k > 1) std::rotate(out.begin(), out.begin() + (k - 1), out.end());
+        return out;
+    }
+    if (route == "swap") {                                               // neighbours exchanged, then std::swap'ped back
+        std::vector<nix::Cell> out(want);
+        for (size_t i = 0; i + 1 < k; i += 2) { nix::Cell tmp(out[i]); out[i] = out[i + 1]; out[i + 1] = tmp; }
+        for (size_t i = 0; i + 1 < k; i += 2) std::swap(out[i], out[i + 1]);
+        return out;
+    }
+    if (route == "erase") {                                              // a leading dummy element erased again
+        std::vector<nix::Cell> out;
+        out.push_back(nix::Cell(7u, nix::Variant(int32_t(-1))));
+        for (size_t i = 0; i < k; i++) out.push_back(want[i]);
+        out.erase(out.begin());
+        return out;
+    }
+    if (route == "insert") {                                             // the first element inserted last, at the front
+        std::vector<nix::Cell> out;
+        for (size_t i = 1; i < k; i++) out.push_back(want[i]);
+        if (k) out.insert(out.begin(), want[0]);
+        return out;
+    }
+    if (route == "copy") {                                               // copy constructors, then vector copy-assignment
+        std::vector<nix::Cell> tmp;
+        for (size_t i = 0; i < k; i++) { nix::Cell c(want[i]); tmp.push_back(c); }
+        std::vector<nix::Cell> out(k);
+        out = tmp;
+        return out;
+    }
+    if (route == "move") {                                               // move constructors and move assignment
+        std::vector<nix::Cell> tmp(want);
+        std::vector<nix::Cell> out;
+        for (size_t i = 0; i < k; i++) { nix::Cell c(std::move(tmp[i])); out.emplace_back(std::move(c)); }
+        std::vector<nix::Cell> out2(k);
+        for (size_t i = 0; i < k; i++) out2[i] = std::move(out[i]);
+        return out2;
+    }
+    throw std::logic_error("bad route " + route);
+}
+
 static std::string handle(const std::vector<std::string> &t) {
     std::ostringstream o;
     const std::string &c = t[0];
@@ -228,16 +295,18 @@ static std::string handle(const std::vector<std::string> &t) {
         df.writeRow(dec_u64(t.at(1)), vs);
         return "done";
     }
-    if (c == "wcells_n" || c == "wcells_i") {
+    if (c.compare(0, 8, "wcells_n") == 0 || c.compare(0, 8, "wcells_i") == 0) {
+        bool byname = c[7] == 'n';
+        std::string route = c.size() > 9 && c[8] == ':' ? c.substr(9) : "brace";
         size_t k = static_cast<size_t>(dec_u64(t.at(2)));
         if (t.size() != 3 + 2 * k) throw std::logic_error("bad cell count");
-        std::vector<nix::Cell> cells;
+        std::vector<nix::Cell> want;               // the request, every element freshly constructed
         for (size_t i = 0; i < k; i++) {
             nix::Variant v = dec_val(t[4 + 2 * i]);
-            if (c == "wcells_n") cells.push_back(nix::Cell(dec_str(t[3 + 2 * i]), v));
-            else cells.push_back(nix::Cell(static_cast<unsigned>(dec_u64(t[3 + 2 * i])), v));
+            if (byname) want.push_back(nix::Cell(dec_str(t[3 + 2 * i]), v));
+            else want.push_back(nix::Cell(static_cast<unsigned>(dec_u64(t[3 + 2 * i])), v));
         }
-        df.writeCells(dec_u64(t.at(1)), cells);
+        df.writeCells(dec_u64(t.at(1)), build_cells(want, route));
         return "done";
     }
     if (c == "wcell") { df.writeCell(dec_u64(t.at(1)), static_cast<unsigned>(dec_u64(t.at(2))), dec_val(t.at(3))); return "done"; }
@@ -259,7 +328,14 @@ static std::string handle(const std::vector<std::string> &t) {
         if (t.size() != 3 + k) throw std::logic_error("bad name count");
         std::vector<std::string> names;
         for (size_t i = 0; i < k; i++) names.push_back(dec_str(t[3 + i]));
-        std::vector<nix::Cell> cells = df.readCells(dec_u64(t.at(1)), names);
+        std::vector<nix::Cell> got = df.readCells(dec_u64(t.at(1)), names);
+        // what the caller sees must survive copying, moving and assigning the returned cells
+        std::vector<nix::Cell> cells(got.size());
+        for (size_t i = 0; i < got.size(); i++) {
+            nix::Cell a(got[i]);
+            nix::Cell b(std::move(a));
+            if (i % 2) cells[i] = b; else cells[i] = std::move(b);
+        }
         o << "[";
         for (const nix::Cell &cell : cells) o << " " << enc_cell(cell);
         o << " ]";
